@@ -149,6 +149,18 @@ Theorem C07_masked_copy_is_selection : forall fl o ovm ocm o',
 Proof. exact masked_copy_done. Qed.
 Print Assumptions C07_masked_copy_is_selection.
 
+(* Data.copy(parent, mask) of one data child onto any parent with n vertices / cells (the source's own parent or another object):
+   fewer elements than the array: the kept entries compacted, then the target's pad / reject rule; at least as many: every
+   kept element keeps its value AT ITS OWN INDEX, the others are the no-data value (tail padded for a larger target) *)
+Theorem C07_data_copy_any_parent : forall fl n m k k' v, kvals k = Some v -> data_copy fl n (Some m) k = Ok k' ->
+  length m = length v /\
+  (n < length v -> exists v'', format_length n (kkind k) (kassoc k) (select m v) = Ok v'' /\ kvals k' = Some v'') /\
+  (length v <= n -> exists tail, kvals k' = Some (fill_masked (ndv (kkind k)) m v ++ tail) /\
+     forall i b x, nth_error m i = Some b -> nth_error v i = Some x ->
+       nth_error (fill_masked (ndv (kkind k)) m v ++ tail) i = Some (if b then x else ndv (kkind k))).
+Proof. exact data_copy_any_parent. Qed.
+Print Assumptions C07_data_copy_any_parent.
+
 (* ------------------------------------------------------------------ pad_reject *)
 Theorem C07_pad_reject : forall n k a v,
   (k <> KText -> length v < n -> format_length n k a v = Ok (v ++ repeat (ndv k) (n - length v))) /\
@@ -284,6 +296,13 @@ Example C07_plain_nonvacuous :
 Proof.
   split; [repeat constructor; discriminate|]. simpl. repeat split; auto.
 Qed.
+
+(* data copied onto another object of the same size with a non-prefix mask: kept values stay at indices 1, 3, 4 *)
+Example C07_data_copy_other_parent :
+  data_copy_obs repaired 6 [false; true; false; true; true; false]
+    {| kid_id := 1; kassoc := AVertex; kkind := KFloat; kvals := Some [Some 10; Some 11; Some 12; Some 13; Some 14; Some 15]%Z |}
+  = Ok (Some [None; Some 11; None; Some 13; Some 14; None]%Z).
+Proof. vm_compute. reflexivity. Qed.
 
 (* the refuted statements' hypotheses are met by the witness (so the refutation is not about an ill-formed input) *)
 Example C07_witness_consistent : wf witness_obj /\ copy_args_ok witness_obj (RemoveVertices [0%Z]).
